@@ -2,10 +2,10 @@
 # tools/benign_intake.sh <name> : for /tmp/ben/<name>/_out/refactor?.patch - confirm it builds and keeps the suite green,
 # run every property's quick check on it, print what fires, and store it as benign/<name>-<x>.patch.
 V=$(cd "$(dirname "$0")/.." && pwd); cd $V
-N=$1
+N=$1; O=${2:-$1}
 export GOFLAGS=-mod=mod GOPROXY=off GOSUMDB=off GOTOOLCHAIN=local
 one() {
-  f=$1; N=$2
+  f=$1; N=$2; O=$3
   x=$(basename $f .patch | sed 's/refactor//' | tr 'A-Z' 'a-z')
   S=$(mktemp -d /tmp/gpbi.XXXXXX); git clone -q --shared /repo $S/repo
   if ! (cd $S/repo && git apply --3way --whitespace=nowarn $f >/dev/null 2>&1); then echo "$N-$x APPLY-FAIL"; rm -rf $S; return; fi
@@ -18,9 +18,9 @@ one() {
 "; fi
   done
   note=$(head -c 300 ${f%.patch}.txt 2>/dev/null | tr '\n' ' ')
-  { echo "# breaks: BENIGN"; echo "# note: (sub-agent refactor) $note"; (cd $S/repo && git diff HEAD); } > $V/benign/$N-$x.patch
-  echo "$N-$x fired=[${fired# }]"; [ -n "$fired" ] && printf "%s" "$detail"
+  { echo "# breaks: BENIGN"; echo "# note: (sub-agent refactor) $note"; (cd $S/repo && git diff HEAD); } > $V/benign/$O-$x.patch
+  echo "$O-$x fired=[${fired# }]"; [ -n "$fired" ] && printf "%s" "$detail"
   rm -rf $S
 }
 export -f one; export V
-ls /tmp/ben/$N/_out/refactor?.patch | xargs -P 5 -I{} bash -c 'one {} '$N | cat
+ls /tmp/ben/$N/_out/refactor?.patch | xargs -P 5 -I{} bash -c 'one {} '$N' '$O | cat
